@@ -139,7 +139,7 @@ def run_job_A(h: H, cube, tier, seed, workdir, suppress="", verbose=False) -> Jo
     cmd.append(f"{file}:{line}")
     t0 = time.time()
     try:
-        p = subprocess.run(cmd, env=env, cwd=VERIF, capture_output=True, text=True, timeout=T * 6 + 300)
+        p = subprocess.run(cmd, env=env, cwd=VERIF, capture_output=True, text=True, timeout=T * 10 + 600)
         out, err, rc = p.stdout, p.stderr, p.returncode
     except subprocess.TimeoutExpired as e:
         out = (e.stdout or b"").decode() if isinstance(e.stdout, bytes) else (e.stdout or "")
